@@ -42,6 +42,14 @@ def _literal(e, names=()):
         return True
     if isinstance(e, ast.Name) and e.id in names:
         return True
+    # a closed lambda: its body only reads its own parameters, builtins and stable module-level names
+    if isinstance(e, ast.Lambda) and not e.args.vararg and not e.args.kwarg and not e.args.defaults and not e.args.kw_defaults:
+        import builtins as _bb
+
+        own = {a.arg for a in e.args.args + e.args.kwonlyargs}
+        free = {x.id for x in ast.walk(e.body) if isinstance(x, ast.Name)} - own
+        if all(n in names or hasattr(_bb, n) for n in free) and not any(isinstance(x, (ast.Lambda, ast.NamedExpr, ast.Yield, ast.Await)) for x in ast.walk(e.body)):
+            return True
     # partial(f, <literals>): a function value fixed at import time
     if isinstance(e, ast.Call) and ((isinstance(e.func, ast.Name) and e.func.id == "partial") or (isinstance(e.func, ast.Attribute) and e.func.attr == "partial" and isinstance(e.func.value, ast.Name) and e.func.value.id == "functools")) and e.args and all(_literal(a, names) for a in e.args) and all(k.arg is not None and _literal(k.value, names) for k in e.keywords):
         return True
